@@ -193,7 +193,9 @@ def gen_rule(rng, kind=None, kinds=None):
     if rng.random() < 0.1 and kind != "all":
         r["Comment"] = rng.choice([" a comment", " TODO: check", " why, though?", " for the 7\" panel", " don't ask", " see \"the docs\"",
                                    # the comments the tool itself writes on rules built from log records
-                                   " file_inherit", " no new privs", " optional: see the docs", " file_inherit (from the parent)"])
+                                   " file_inherit", " no new privs", " optional: see the docs", " file_inherit (from the parent)",
+                                   # free text that merely mentions a marker (8 such comments in the shipped tree), unbalanced brackets
+                                   " Not in a subprofile because of no new privs", " TODO: confine (see the notes below", " 1) main configuration", " :(", " ends with a brace {"])
     return r
 
 
